@@ -20,8 +20,12 @@ func corpus(e *ev.Env, w *witnesses) {
 	all := func(name string, sc scenario, plan faultPlan) {
 		e.Corpus(name, func(c *ev.Case) {
 			var t tally
+			ctx := "concurrent-duplicates"
+			if len(sc.workers()) == 1 {
+				ctx = "sequential-duplicates"
+			}
 			sched.DFS(0, func(ch sched.Chooser) *sched.Outcome {
-				return w.one(c, &sc, plan, judgeOpts{doubleCtx: "concurrent-duplicates", linz: plan.Kind == ""}, ch, &t)
+				return w.one(c, &sc, plan, judgeOpts{doubleCtx: ctx, linz: plan.Kind == ""}, ch, &t)
 			})
 			t.flush(e, "corpus")
 		})
@@ -33,6 +37,11 @@ func corpus(e *ev.Env, w *witnesses) {
 		all("seq-replay-shape-"+shapes[b].name, sc, faultPlan{})
 		sc.Keep = keepList
 		all("seq-replay-keep-shape-"+shapes[b].name, sc, faultPlan{})
+		// KeepResponseHeaders matching none of the response's headers: the record is status + body
+		sc.Keep = keepNone
+		all("seq-replay-keepnone-shape-"+shapes[b].name, sc, faultPlan{})
+		sc.Keep = keepEvery
+		all("seq-replay-keepevery-shape-"+shapes[b].name, sc, faultPlan{})
 	}
 	// H1 of DESIGN 3.C17: Storage.Set fails after the handler completed; the retry executes again
 	all("set-fault-then-retry", seq(dup("POST"), dup("POST")), faultPlan{Kind: "set", N: 1})
@@ -137,6 +146,24 @@ func corpus(e *ev.Env, w *witnesses) {
 			e.Inconclusive("harness self-check failed: prefix-sharded DFS does not enumerate exactly the schedules of the full DFS")
 		}
 	})
+	// the key comes back after its lifetime with the SAME answer (bytes already stored), then
+	// duplicates inside the new lifetime; default memory storage and vstore
+	for _, mem := range []bool{true, false} {
+		for _, L := range []time.Duration{time.Second, 3 * time.Second, 8 * time.Second} {
+			mem, L := mem, L
+			name := "lifetime-same-answer-after-expiry-" + L.String()
+			if mem {
+				name += "-memory"
+			}
+			e.Corpus(name, func(c *ev.Case) {
+				lifetimeCase(e, w, c, &lifeFixed{
+					sc: scenario{Reqs: []reqSpec{dup("POST"), dup("POST"), dup("POST"), dup("PUT"), dup("POST"), dup("POST")},
+						Lifetime: L, MemStore: mem, ConstResp: true, Keep: keepNone},
+					advs: []time.Duration{0, 0, L + time.Second, 0, L - time.Second, L + time.Second},
+				})
+			})
+		}
+	}
 	// lifetime: replay inside, re-execution allowed outside, both backends
 	for _, mem := range []bool{false, true} {
 		name := "lifetime-vstore"
